@@ -117,6 +117,9 @@ def faults(cls, tier):
     if "q" in feats_of(cls):
         for i in pos:
             out.append({"fault": "string_in_quantitative", "pos": i})
+        for i in pos[:2]:
+            for dt in ("category", "string"):
+                out.append({"fault": "string_in_quantitative", "pos": i, "how": dt})
     if "o" in feats_of(cls):
         for i in pos:
             out.append({"fault": "unknown_ordinal", "pos": i})
@@ -174,6 +177,10 @@ def apply_fault(cls, fd, X, y, variant):
     elif f == "string_in_quantitative":
         X["q"] = X["q"].astype(object)
         X.iloc[fd["pos"], X.columns.get_loc("q")] = "oops"
+        if fd.get("how") == "category":  # categories mixing numbers and a string
+            X["q"] = X["q"].astype("category")
+        elif fd.get("how") == "string":  # pandas string dtype: every value is a str
+            X["q"] = X["q"].astype(str).astype("string")
     elif f == "unknown_ordinal":
         X.iloc[fd["pos"], X.columns.get_loc("o")] = "never-ranked"
     elif f == "y_classes":
@@ -262,7 +269,7 @@ def _run_case(case):
     res = {"violations": [], "sample": dict(case)}
     viol = res["violations"]
     action = apply_fault(cls, fd, X, y, variant)
-    name = fd["fault"] + ":" + str(fd.get("how", fd.get("pos", fd.get("feature"))))
+    name = fd["fault"] + ":" + str(fd.get("how", "")) + str(fd.get("pos", fd.get("feature", "")))
     if action[0] == "ctor":
         if hist != "fresh":
             res["outcome"] = "n/a"
